@@ -10,21 +10,27 @@ use pairing_plus::bls12_381::{Fq, Fq2, Fr};
 use pairing_plus::hash_to_field::{hash_to_field, BaseFromRO, ExpandMsg, ExpandMsgXmd, ExpandMsgXof, FromRO};
 use serde_json::json;
 
-/// a caller-supplied hash with unusual sizes (16-byte output, 24-byte block): expand_message_xmd must work for any
-/// Merkle-Damgard style hash, not only for the SHA-2 sizes.  Not cryptographic; deterministic and position dependent.
-#[derive(Clone)]
-pub struct Toy16 {
+/// caller-supplied hashes with unusual sizes: expand_message_xmd must work for any Merkle-Damgard style hash, not only for
+/// the SHA-2 sizes (output not a multiple of 8 bytes, block size unrelated to the output size, a block shorter than the
+/// output).  Not cryptographic; deterministic and position dependent.
+pub struct Toy<O, B> {
     a: u64,
     b: u64,
     n: u64,
+    _p: std::marker::PhantomData<(O, B)>,
 }
-impl Default for Toy16 {
-    fn default() -> Self {
-        Toy16 { a: 0x243f6a8885a308d3, b: 0x13198a2e03707344, n: 0 }
+impl<O, B> Clone for Toy<O, B> {
+    fn clone(&self) -> Self {
+        Toy { a: self.a, b: self.b, n: self.n, _p: std::marker::PhantomData }
     }
 }
-impl digest::Input for Toy16 {
-    fn input<B: AsRef<[u8]>>(&mut self, data: B) {
+impl<O, B> Default for Toy<O, B> {
+    fn default() -> Self {
+        Toy { a: 0x243f6a8885a308d3, b: 0x13198a2e03707344, n: 0, _p: std::marker::PhantomData }
+    }
+}
+impl<O, B> digest::Input for Toy<O, B> {
+    fn input<D: AsRef<[u8]>>(&mut self, data: D) {
         for x in data.as_ref() {
             self.n = self.n.wrapping_add(1);
             self.a = (self.a ^ (*x as u64) ^ self.n).wrapping_mul(0x100000001b3).rotate_left(13);
@@ -32,36 +38,41 @@ impl digest::Input for Toy16 {
         }
     }
 }
-impl digest::FixedOutput for Toy16 {
-    type OutputSize = digest::generic_array::typenum::U16;
-    fn fixed_result(self) -> GenericArray<u8, Self::OutputSize> {
-        let mut out = GenericArray::<u8, Self::OutputSize>::default();
-        let fa = (self.a ^ self.n).wrapping_mul(0xff51afd7ed558ccd) ^ self.b.rotate_left(7);
-        let fb = (self.b ^ fa).wrapping_mul(0xc4ceb9fe1a85ec53) ^ self.a.rotate_left(31);
-        out[..8].copy_from_slice(&fa.to_be_bytes());
-        out[8..].copy_from_slice(&fb.to_be_bytes());
+impl<O: digest::generic_array::ArrayLength<u8>, B> digest::FixedOutput for Toy<O, B> {
+    type OutputSize = O;
+    fn fixed_result(self) -> GenericArray<u8, O> {
+        let mut out = GenericArray::<u8, O>::default();
+        let mut fa = (self.a ^ self.n).wrapping_mul(0xff51afd7ed558ccd) ^ self.b.rotate_left(7);
+        let mut fb = (self.b ^ fa).wrapping_mul(0xc4ceb9fe1a85ec53) ^ self.a.rotate_left(31);
+        for (i, o) in out.iter_mut().enumerate() {
+            if i % 8 == 0 && i > 0 {
+                fa = (fa ^ fb).wrapping_mul(0xff51afd7ed558ccd).rotate_left(23);
+                fb = (fb.wrapping_add(fa)).wrapping_mul(0xc4ceb9fe1a85ec53).rotate_left(41);
+            }
+            *o = (fa >> (8 * (7 - i % 8))) as u8;
+        }
         out
     }
 }
-impl digest::BlockInput for Toy16 {
-    type BlockSize = digest::generic_array::typenum::U24;
+impl<O, B: digest::generic_array::ArrayLength<u8>> digest::BlockInput for Toy<O, B> {
+    type BlockSize = B;
 }
-impl digest::Reset for Toy16 {
+impl<O, B> digest::Reset for Toy<O, B> {
     fn reset(&mut self) {
-        *self = Toy16::default();
+        *self = Toy::default();
     }
 }
-fn toy16(parts: &[&[u8]]) -> Vec<u8> {
+fn toy<O: digest::generic_array::ArrayLength<u8>, B>(parts: &[&[u8]]) -> Vec<u8> {
     use digest::{FixedOutput, Input};
-    let mut h = Toy16::default();
+    let mut h = Toy::<O, B>::default();
     for p in parts {
         h.input(p);
     }
     h.fixed_result().to_vec()
 }
-/// RFC 9380 5.3.1 with the toy hash (b = 16, s = 24)
-fn ref_xmd_toy16(msg: &[u8], dst: &[u8], len_in_bytes: usize) -> Option<Vec<u8>> {
-    let (b, s) = (16usize, 24usize);
+/// RFC 9380 5.3.1 with a toy hash (b = output size, s = block size)
+fn ref_xmd_toy<O: digest::generic_array::ArrayLength<u8>, B: digest::generic_array::ArrayLength<u8>>(msg: &[u8], dst: &[u8], len_in_bytes: usize) -> Option<Vec<u8>> {
+    let (b, s) = (O::to_usize(), B::to_usize());
     let ell = (len_in_bytes + b - 1) / b;
     if ell > 255 || len_in_bytes > 65535 || dst.len() > 255 {
         return None;
@@ -69,16 +80,57 @@ fn ref_xmd_toy16(msg: &[u8], dst: &[u8], len_in_bytes: usize) -> Option<Vec<u8>>
     let dst_prime: Vec<u8> = [dst, &[dst.len() as u8]].concat();
     let z_pad = vec![0u8; s];
     let lib = [(len_in_bytes >> 8) as u8, (len_in_bytes & 0xff) as u8];
-    let b0 = toy16(&[&z_pad, msg, &lib, &[0u8], &dst_prime]);
-    let mut prev = toy16(&[&b0, &[1u8], &dst_prime]);
+    let b0 = toy::<O, B>(&[&z_pad, msg, &lib, &[0u8], &dst_prime]);
+    let mut prev = toy::<O, B>(&[&b0, &[1u8], &dst_prime]);
     let mut out = prev.clone();
     for i in 2..=ell {
         let x: Vec<u8> = b0.iter().zip(&prev).map(|(p, q)| p ^ q).collect();
-        prev = toy16(&[&x, &[i as u8], &dst_prime]);
+        prev = toy::<O, B>(&[&x, &[i as u8], &dst_prime]);
         out.extend_from_slice(&prev);
     }
     out.truncate(len_in_bytes);
     Some(out)
+}
+
+fn toy_sweep<O, B>(ctx: &Ctx, ml: &[usize], dl: &[usize])
+where
+    O: digest::generic_array::ArrayLength<u8> + Sync + 'static,
+    B: digest::generic_array::ArrayLength<u8> + Sync + 'static,
+{
+    let (b, s) = (O::to_usize(), B::to_usize());
+    let lim = 255 * b;
+    let mut tl: Vec<usize> = vec![0, 1, b - 1, b, b + 1, 2 * b - 1, 2 * b, 2 * b + 1, 3 * b, 255, 256, lim - 1, lim, lim + 1, 2 * lim];
+    tl.retain(|&x| x <= 65535);
+    tl.sort();
+    tl.dedup();
+    let rad = [tl.len() as u64, dl.len() as u64, ml.len() as u64];
+    ctx.sweep(
+        &format!("expand_message.toy_hash_{}_{}", b, s),
+        crate::infra::space(&rad),
+        |i| {
+            let d = unrank(i, &rad);
+            json!({"hash": format!("toy {}-byte output / {}-byte block", b, s), "msg_len": ml[d[2]], "dst_len": dl[d[1]], "len_in_bytes": tl[d[0]]})
+        },
+        |i| {
+            let d = unrank(i, &rad);
+            let msg = fill(ml[d[2]], 0);
+            let dst = rfc_dst(dl[d[1]], 0);
+            let len = tl[d[0]];
+            let want = ref_xmd_toy::<O, B>(&msg, &dst, len);
+            let got = guard(|| ExpandMsgXmd::<Toy<O, B>>::expand_message(&msg, &dst, len));
+            match (want, got) {
+                (None, Err(_)) => Ok("abort beyond 255 blocks"),
+                (None, Ok(_)) => Err(Fail::new(format!("expand_message_xmd ({}-byte hash) returned bytes for {} bytes = more than 255 blocks", b, len))),
+                (Some(_), Err(m)) => Err(Fail::new(format!("expand_message_xmd ({}-byte hash) aborted inside the limit: {}", b, m))),
+                (Some(w), Ok(g)) => {
+                    if w != g {
+                        return Err(Fail::new(format!("expand_message_xmd differs from RFC 9380 section 5.3.1 for a hash with {}-byte output and {}-byte block", b, s)));
+                    }
+                    Ok(if len == 0 { "" } else { "output" })
+                }
+            }
+        },
+    );
 }
 
 pub const EXPANDERS: [Expander; 4] = [Expander::XmdSha256, Expander::XmdSha512, Expander::XofShake128, Expander::XofShake256];
@@ -260,37 +312,15 @@ pub fn run(ctx: &Ctx) -> (&'static str, &'static str) {
             },
         );
     }
-    // the same through a caller-supplied hash with other sizes (16-byte output, 24-byte block): limit at 255*16 = 4080
+    // the same through caller-supplied hashes with other sizes: 16/24 (limit at 255*16 = 4080), 28/64 (SHA-224 shape: the
+    // output is not a multiple of 8 bytes), 20/64, 33/17 (odd output, block shorter than the output), 1/3
     {
-        let tl: Vec<usize> = vec![0, 1, 15, 16, 17, 31, 32, 33, 48, 255, 256, 4079, 4080, 4081, 8160];
-        let rad = [tl.len() as u64, dl.len() as u64, ml.len() as u64];
-        ctx.sweep(
-            "expand_message.toy_hash_16_24",
-            crate::infra::space(&rad),
-            |i| {
-                let d = unrank(i, &rad);
-                json!({"hash": "toy 16-byte output / 24-byte block", "msg_len": ml[d[2]], "dst_len": dl[d[1]], "len_in_bytes": tl[d[0]]})
-            },
-            |i| {
-                let d = unrank(i, &rad);
-                let msg = fill(ml[d[2]], 0);
-                let dst = rfc_dst(dl[d[1]], 0);
-                let len = tl[d[0]];
-                let want = ref_xmd_toy16(&msg, &dst, len);
-                let got = guard(|| ExpandMsgXmd::<Toy16>::expand_message(&msg, &dst, len));
-                match (want, got) {
-                    (None, Err(_)) => Ok("abort beyond 255 blocks"),
-                    (None, Ok(_)) => Err(Fail::new(format!("expand_message_xmd (16-byte hash) returned bytes for {} bytes = more than 255 blocks", len))),
-                    (Some(_), Err(m)) => Err(Fail::new(format!("expand_message_xmd (16-byte hash) aborted inside the limit: {}", m))),
-                    (Some(w), Ok(g)) => {
-                        if w != g {
-                            return Err(Fail::new("expand_message_xmd differs from RFC 9380 section 5.3.1 for a hash with 16-byte output and 24-byte block"));
-                        }
-                        Ok(if len == 0 { "" } else { "output" })
-                    }
-                }
-            },
-        );
+        use digest::generic_array::typenum::{U1, U16, U17, U20, U24, U28, U3, U33, U64};
+        toy_sweep::<U16, U24>(ctx, &ml, &dl);
+        toy_sweep::<U28, U64>(ctx, &ml, &dl);
+        toy_sweep::<U20, U64>(ctx, &ml, &dl);
+        toy_sweep::<U33, U17>(ctx, &ml, &dl);
+        toy_sweep::<U1, U3>(ctx, &ml, &dl);
     }
     // hash_to_field: blocks are consecutive, big-endian, reduced; Fq2 real part first
     let counts: Vec<usize> = vec![0, 1, 2, 3, 5, 17];
